@@ -431,6 +431,24 @@ echo implode(",", $seen), "|", $ch->isClosed() ? "closed" : "open", "|", $ch->re
         elif form == "pool-acc":
             prod = ("$sent = 0;\n$worker = function() use ($ch, $ids, $done, $sent) {\n    $id = $ids->receive();\n"
                     "    while ($sent < %d) { $sent = $sent + 1; $ch->send($id * 100 + $sent); }\n    $done->send($id);\n};\n" % K) + "for ($p = 0; $p < %d; $p++) { spawn($worker); }\n" % P
+        elif form == "stored":
+            # closures CREATED in a loop (use-by-value $p), stored in an array, SPAWNED after the loop: by then $p has moved on
+            prod = ("$workers = [];\nfor ($p = 1; $p <= %d; $p++) {\n    $workers[] = function() use ($ch, $done, $p) {\n        for ($i = 1; $i <= %d; $i++) { $ch->send($p * 100 + $i); }\n        $done->send($p);\n    };\n}\n"
+                    "$p = 99;\nforeach ($workers as $w) { spawn($w); }\n") % (P, K)
+        elif form == "stored-reassigned":
+            # one variable reassigned between the creation of each closure value and the spawns
+            prod = "$id = 0;\n" + "".join("$id = %d;\n$w%d = function() use ($ch, $done, $id) {\n    for ($i = 1; $i <= %d; $i++) { $ch->send($id * 100 + $i); }\n    $done->send($id);\n};\n" % (q, q, K) for q in range(1, P + 1)) + \
+                   "$id = 77;\n" + "".join("spawn($w%d);\n" % q for q in range(P, 0, -1))
+        elif form == "named":
+            # spawn accepts closures only: the closure hands its captured values to a NAMED function
+            head = "function c09produce($ch, $done, $p, $k) {\n    for ($i = 1; $i <= $k; $i++) { $ch->send($p * 100 + $i); }\n    $done->send($p);\n}\n" + head
+            prod = "for ($p = 1; $p <= %d; $p++) {\n    $k = %d;\n    spawn(function() use ($ch, $done, $p, $k) { c09produce($ch, $done, $p, $k); });\n}\n" % (P, K)
+        elif form == "object":
+            # ... or calls a method of a captured object (one object per producer, created before, spawned after the loop)
+            head = ("class Runner {\n    public $id; public $ch; public $done; public $k;\n    function __construct($id, $ch, $done, $k) { $this->id = $id; $this->ch = $ch; $this->done = $done; $this->k = $k; }\n"
+                    "    function run() {\n        for ($i = 1; $i <= $this->k; $i++) { $this->ch->send($this->id * 100 + $i); }\n        $this->done->send($this->id);\n    }\n}\n") + head
+            prod = ("$objs = [];\nfor ($p = 1; $p <= %d; $p++) { $objs[] = new Runner($p, $ch, $done, %d); }\n"
+                    "foreach ($objs as $o) { spawn(function() use ($o) { $o->run(); }); }\n") % (P, K)
         elif form == "method":
             head = ("class Producer {\n    public $id; public $ch; public $done;\n    function __construct($id, $ch, $done) { $this->id = $id; $this->ch = $ch; $this->done = $done; }\n"
                     "    function start() {\n        spawn(function() {\n            for ($i = 1; $i <= %d; $i++) { $this->ch->send($this->id * 100 + $i); }\n            $this->done->send($this->id);\n        });\n    }\n}\n" % K) + head
@@ -456,7 +474,7 @@ echo implode(",", $seen), "|", $ch->isClosed() ? "closed" : "open", "|", $ch->re
             fcfgs = [json.load(open(ck.replay))["case"]]
         else:
             fcfgs = []
-            for form in ("fresh", "pool", "pool-acc", "method", "method-use"):
+            for form in ("fresh", "pool", "pool-acc", "method", "method-use", "stored", "stored-reassigned", "named", "object"):
                 for (P, K, cap, cons) in [(3, 4, 2, "main"), (3, 4, 0, "main"), (2, 3, 1, "takers"), (4, 2, 0, "main")]:
                     fcfgs.append({"form": form, "producers": P, "sends": K, "cap": cap, "consumers": cons, "gomaxprocs": rng.choice([1, 2, 4, 16])})
         frep = 6 if ck.tier == "quick" else 60
